@@ -120,6 +120,9 @@ func ParseAllContactValues(buf []byte, offs int, c *PContacts) (int, ErrorHdr) {
 			if c.N == 0 {
 				c.LastHVal = pf.V
 				c.MinExpires = ^uint32(0)
+			} else if c.LastHVal.Offs == 0 && c.LastHVal.Len == 0 {
+				// first value of a new Contact header
+				c.LastHVal = pf.V
 			} else {
 				c.LastHVal.Extend(int(pf.V.Offs + pf.V.Len))
 			}
